@@ -15,12 +15,13 @@ independent writer of that format.
                       file (the distributed sample) can be shown to BE `listing …` by re-rendering
 
 "Exactly as written": the text after the tag, unchanged (blanks included).  For `<2>` the written
-text is the comma-joined list and the entry holds its comma-split.  READING recorded here on the
-coordinator's ruling: for an EMPTY `<2>` line "exactly as written" is read as the list Go's
-`strings.Split("", ",")` produces, the one-element list `[""]` — that is how "no isoschizomers"
-comes back from rebase.Parse and what `expectedMap` demands (so a repair that returned nil / `[]`
-there would be reported by this check).  An empty `<7>` line gives no suppliers (nil, `null` in the
-export).  `wfRec` forbids an empty isoschizomer NAME so that `[]` and `[""]` cannot both be written.
+text is the comma-joined isoschizomer list and the entry holds that list: `expectedMap` demands
+`r.isos`, in particular NO isoschizomers for an empty `<2>` line (nil and the empty list are
+identified, as for the suppliers of an empty `<7>`, which come back as nil / `null`).
+rebase.Parse returns the one-element list `[""]` there (Go's `strings.Split("", ",")`): known
+finding C16-empty-isoschizomers.  `readMap` is `expectedMap` with that quirk — exactly what the code
+returns (`parse_listing_read`); `wfRec` forbids an empty isoschizomer NAME, so a written list
+never holds `""`.
 -/
 namespace PolyVerif.Spec.RebaseListing
 open PolyVerif PolyVerif.LineText PolyVerif.Rebase
@@ -90,7 +91,7 @@ def supplierOf (sups : List Supplier) (c : Char) : Str :=
 
 def enzymeOf (sups : List Supplier) (r : Rec) : Enzyme :=
   { name := r.name
-    isoschizomers := if r.isos.isEmpty then [[]] else r.isos
+    isoschizomers := r.isos
     recognitionSequence := r.recog, methylationSite := r.meth, microOrganism := r.org, source := r.src
     commercialAvailability := r.codes.map (supplierOf sups)
     references := r.refs }
@@ -99,6 +100,17 @@ def enzymeOf (sups : List Supplier) (r : Rec) : Enzyme :=
 last record's content, as a Go map store does) -/
 def expectedMap (sups : List Supplier) (recs : List Rec) : List (Str × Enzyme) :=
   recs.foldl (fun m r => mapInsert m r.name (enzymeOf sups r)) []
+
+/-- what rebase.Parse makes of a record: as `enzymeOf`, but an EMPTY `<2>` line is read as the
+one-element list `[""]` (known finding C16-empty-isoschizomers) -/
+def enzymeRead (sups : List Supplier) (r : Rec) : Enzyme :=
+  { enzymeOf sups r with isoschizomers := if r.isos.isEmpty then [[]] else r.isos }
+
+def readMap (sups : List Supplier) (recs : List Rec) : List (Str × Enzyme) :=
+  recs.foldl (fun m r => mapInsert m r.name (enzymeRead sups r)) []
+
+/-- some record has no isoschizomers (an empty `<2>` line) -/
+def emptyIsos (recs : List Rec) : Bool := recs.any (·.isos.isEmpty)
 
 /-! ### well-formedness (decidable) -/
 
